@@ -62,6 +62,12 @@ public:
         std::fprintf(f_, "%ld", clamp(v));
         return *this;
     }
+    // no clamping: for values known to fit TLC's 32-bit signed integers (|v| < 2^31)
+    Json& raw(const char* k, long v) {
+        key(k);
+        std::fprintf(f_, "%ld", v);
+        return *this;
+    }
     Json& boolean(const char* k, bool v) {
         key(k);
         std::fputs(v ? "true" : "false", f_);
